@@ -794,7 +794,12 @@ def translate(root: Path | None = None) -> dict:
         sites.append(b)
     sites += hash_order_sites(root)
     cli_body, cli_where = cli_seed(root)
-    prims = check_primitives(root)
+    problems = []
+    try:
+        prims = check_primitives(root)
+    except TranslationError as exc:  # the plan is still emitted (so that the proofs see it); the check reports the broken tie
+        prims = []
+        problems.append(str(exc))
     lines = [
         "(* GENERATED by harness/props/c13_translate.py from the schemathesis source on every run of ./check C13.  Do not edit. *)",
         "From Coq Require Import List NArith Bool.",
@@ -820,7 +825,7 @@ def translate(root: Path | None = None) -> dict:
         "",
     ]
     text = "\n".join(lines)
-    return {"text": text, "sites": sites, "cli": cli_body, "primitives": prims}
+    return {"text": text, "sites": sites, "cli": cli_body, "primitives": prims, "problems": problems}
 
 
 def write_gen(target: Path, text: str) -> bool:
